@@ -56,6 +56,18 @@ CHECKS = {
         technique="TLA+ protocol model with fault actions checked by TLC; TLC-computed scenario table replayed; events judged by TLC",
         design="4/C05",
     ),
+    "C02": dict(
+        specs=["SettingNames.tla", "SettingsR.tla", "Settings.tla", "SettingsIO.tla"],
+        text="TLC checks that the position machine of iter_settings (peek, structure read, User-Agent continuation loop) decodes "
+        "exactly SettingsR.Decode on every cut of every sequence of menu records and on all short raw strings, with bounded "
+        "position and termination; TLC computes, at the real User-Agent length, the expected records and name/const/enum views "
+        "for every menu sequence and the harness compares all eight views of BeaconConfig; random TLV streams (any u16 index, "
+        "lengths to 65535, duplicates, cuts, garbage) and sample blocks are decoded by the library and judged by TLC.",
+        note="Trusted: TLC, SettingsR, the frozen name table SettingNames.tla. Pretty-printed values are only compared for "
+        "settings without a pretty-printer (C03 covers decoders). Duplicate keys follow dict semantics.",
+        technique="TLA+ position-machine model vs reference decoder (TLC); TLC-computed expectation table replayed; decodings judged by TLC",
+        design="4/C02",
+    ),
 }
 
 NOT_YET = "check not built yet in this round; planned in DESIGN.md section 4"
